@@ -552,7 +552,29 @@ func (Engine) Run(t *testing.T, tape *simrt.Tape, opt worker.Options) *worker.Ou
 	if opt.Property == "C09" {
 		return runSweep(t, tape, opt)
 	}
+	topo := ""
+	if opt.Property == "C06" || opt.Property == "C07" {
+		// One run in four joins two real Conns (topology B) instead of a Conn and the model peer.
+		// The draw is on the tape; tapes recorded before topology B existed carry no "topo"
+		// parameter and replay as topology A without consuming a draw.
+		topo = opt.Params["topo"]
+		switch {
+		case topo != "":
+			tape.Choice("topology", 4)
+		case !tape.Replaying():
+			topo = "A"
+			if tape.Choice("topology", 4) == 0 {
+				topo = "B"
+			}
+		}
+	}
+	if topo == "B" {
+		return singleB(t, tape, opt)
+	}
 	oc, _ := single(t, tape, opt, faultCase{})
+	if topo != "" {
+		oc.ReplayParams = map[string]string{"topo": topo}
+	}
 	return oc
 }
 
@@ -706,7 +728,10 @@ func (r *run) mainTask() {
 	if r.prop == "C09" && s.Choice("topology", 3) == 0 {
 		// topology C: the real stream transport over a byte pipe
 		topo = "C"
-		r.pipe = &simPipe{r: r, s: s, chunk: []int{0, 1, 7, 8, 64}[s.Choice("pipe-chunk", 5)]}
+		// (values 5..9 select the packed stream transport with the same chunk sizes; tapes recorded
+		// before it was added keep their meaning)
+		pc := s.Choice("pipe-chunk", 10)
+		r.pipe = &simPipe{r: r, s: s, chunk: []int{0, 1, 7, 8, 64}[pc%5], packed: pc >= 5}
 		switch r.fault.kind {
 		case "short_write":
 			r.pipe.shortWriteAt, r.pipe.shortKeep = r.fault.at, 1+s.Choice("short-keep", 24)
@@ -718,6 +743,11 @@ func (r *run) mainTask() {
 			r.pipe.eofAt = r.fault.at
 		}
 		transport = rpc.NewStreamTransport(r.pipe)
+		if r.pipe.packed {
+			topo = "C (packed)"
+			transport = rpc.NewPackedStreamTransport(r.pipe)
+			s.Probe("packed_stream_transport")
+		}
 	}
 	r.conn = rpc.NewConn(transport, &rpc.Options{BootstrapClient: boot.client.AddRef(), ErrorReporter: reporter{r}})
 	r.peerBudget = 2 + s.Choice("peer-budget", 10)
